@@ -30,6 +30,18 @@ CHECKS = {
    "complete enumeration of all transcript operation histories to depth 3 (4) over a byte-splitting alphabet with one global injectivity comparison (#outputs == #abstract histories), plus exhaustive (msg,DST) grids for hash-to-curve/field against math/big and RFC 9380 vectors",
    "Every history over {domain separators, Append with label/message splits that concatenate to the same bytes, Extract with several lengths, Clone (continue on clone / origin), constructor name} is executed on the real transcript: equal histories give equal bytes at every step, the map history -> probe output is injective over the whole explored set (decides all pairs at once), clones evolve independently, and every step equals a byte-level framing model; hash-to-curve/field: determinism, on-curve and in-subgroup by math/big, DST separation, pairwise distinctness over the grid, RFC 9380 Appendix J/K vectors through the public API.",
    "Trusts math/big reference curve/field arithmetic and the framing model (pins the wire format); histories beyond depth 3/4 and strings outside the alphabet not covered.", "DESIGN §5 C19"),
+ "C04": ("SCHED+CT", "fault_enumeration",
+   "exhaustive single-fault enumeration: every message slot x every CBOR node x every mutation operator x every permitted deviator, each a complete execution of the real runners over real routers on an adversarial network under the cooperative scheduler",
+   "For session setup, agree-on-random, Gennaro DKG, Canetti DKG, redistribution (refresh, with and without trusted anchor) and Lindell22 signing (+ outside aggregator) at n=3 (n=2 signing quorum): the honest run is harvested once and every single deviation (bit flips, zeroing, donor values from another sender or a parallel session with the same session id, int edits, array drop/dup/swap, missing field, whole-message drop / replay / swap between recipients; broadcasts altered uniformly, unicasts per recipient) is executed; oracles: no honest party panics or hangs (worker-process death is caught too), every returned shard/signature is good, every blamed party is the deviator, and the deviation is rejected by an honest party / the addressed recipient / the aggregator unless the leaf is on the reviewed allow-list of unbound contributions (free_leaves.json).",
+   "Single fault per execution; default schedule + FIFO arrival (schedules are C11); errgroup fork-joins run sequentially (one legal schedule) for reproducibility; expensive protocols (DKLs23, Lindell17, CGGMP21) not yet included; adversarially recomputed forgeries are out of reach of enumeration.", "DESIGN §3.4, §5 C04"),
+ "C17": ("CT", "exploration",
+   "exhaustive enumeration of all operand tuples over a boundary alphabet x announced capacities x aliasing patterns for every arithmetic operation, math/big oracle",
+   "Every exported arithmetic operation of numct Nat/Int/Modulus, num N/NPlus/Z/Q/Zn, modular, crt, znstar, nt.Jacobi and cardinal is evaluated on ALL tuples of the boundary alphabet (0,1,2,3, 2^k-1/2^k/2^k+1, primes, Carmichael, prime squares/products, 2048-bit odd, negatives) x capacity shapes (exact,+1,+64,truncating) x alias patterns (out=lhs, out=rhs, lhs=rhs, all equal, reused output) and compared with math/big; modular sqrt over every residue of every prime <200 and listed composites (returned root squares back; complete for primes); Jacobi for all |a|<=60, odd n<60; prime generation postconditions for 8 bit lengths x 7 shapes x 2 seeds.",
+   "Trusts math/big; operands outside the alphabet not covered; purego back end only; prime generation is checked on what it returns for 2 fixed seeds.", "DESIGN §5 C17"),
+ "C18": ("CT+BFS", "fault_enumeration",
+   "exhaustive enumeration of every single-bit / single-component alteration of (message, witness, key, commitment) per scheme, plus explicit-state search over homomorphic operation sequences, against from-scratch recomputation in math/big",
+   "hashcom: every bit of message (up to 1 KiB, 32 KiB thorough), witness, key and commitment and every length change; Pedersen (k256, BLS G1), integer commitments, Paillier- and ElGamal-based commitments: every enumerated algebraic/bit change of each component; Open must accept exactly the untouched tuple (re-encodings of the same value are the same value; degenerate m=0/r=0 key changes are counted, not demanded); trapdoor equivocation for every message pair opens under the exported key; BFS over {Op, OpInv, ScalarOp, ReRandomise, Shift} to depth 3 (5) with model (m,w): combined commitment equals the one recomputed from scratch; transcript-extracted keys equal iff histories equal (all pairs of 20 histories).",
+   "Trusts math/big reference curve/integer arithmetic and x/crypto BLAKE2b; keys for intcom/Paillier are built from harness primes (the library's samplers share a reader across goroutines); computational binding is not enumerable.", "DESIGN §5 C18"),
 }
 NOT_YET = {}
 for i in range(1, 21):
